@@ -50,6 +50,10 @@ pub fn alphabet(o: &OptSpec) -> Alphabet {
     a
 }
 
+/// step budget for one rendering of help / documentation (steps are counted in the text
+/// splitter and the argument scanner): far above anything a finite text needs
+pub const RENDER_FUEL: u64 = 200_000;
+
 pub fn fuel_for(o: &OptSpec, argv: &[Vec<u8>]) -> u64 {
     let items: usize = argv.iter().map(|a| 1 + a.len() / 2).sum();
     10_000 * (items as u64 + 1) * (o.root.nodes() as u64 + 1)
@@ -330,6 +334,18 @@ impl Bench {
             match hk.accepts.last() {
                 Some((_, _, ledger)) => {
                     case.rep.count("accept_ledgers_checked");
+                    // every argument of the vector becomes at least one item of the state
+                    if o.comp.is_none() && ledger.len() < argv.len() {
+                        case.rep.violation(
+                            "argument-lost-before-parsing",
+                            "accept-hook",
+                            case.index,
+                            case_json(&self.spec, argv)
+                                .set("items_in_state", ledger.len())
+                                .set("arguments", argv.len())
+                                .set("observed", out.show()),
+                        );
+                    }
                     if ledger.iter().any(|s| *s != 2) {
                         case.rep.violation(
                             "value-with-unconsumed-item",
